@@ -195,13 +195,22 @@ func runValues(c *fw.Ctx) {
 			}
 			r := c.Rand("boundary", fmt.Sprint(P), fmt.Sprint(shape))
 			// simple{A: 1, B: n bytes}: payload = 1 + header(n) + n
-			n := P - 2
-			for ; n > 0; n-- {
-				if 1+len(canonHeader(0x80, n))+n == P {
-					break
+			// (A occupies 1, 2 or 3 bytes: 01 / 81 80 / 82 01 00)
+			n, aVal := -1, uint(1)
+		search:
+			for ai, av := range []uint{1, 0x80, 0x100} {
+				for k := P - 2; k > 1; k-- {
+					if ai+1+len(canonHeader(0x80, k))+k == P {
+						n, aVal = k, av
+						break search
+					}
 				}
 			}
-			inner := simple{A: 1, B: r.Bytes(n)}
+			if n < 0 {
+				harnessFault("no simple{A,B} with a %d-byte payload", P)
+				continue
+			}
+			inner := simple{A: aVal, B: r.Bytes(n)}
 			inner.B[0] |= 0x80
 			var v interface{}
 			var tname string
@@ -213,7 +222,7 @@ func runValues(c *fw.Ctx) {
 			case 2:
 				v, tname = &[][]simple{{inner}, {}}, "structs2"
 			case 3:
-				v, tname = &[]interface{}{[]byte{1}, []interface{}{uint64(1), inner.B}}, "ifslice"
+				v, tname = &[]interface{}{[]byte{1}, []interface{}{uint64(inner.A), inner.B}}, "ifslice"
 			default:
 				// a list of P one-byte items
 				l := make([]uint, P)
